@@ -1,17 +1,63 @@
 ------------------------------ MODULE FmtJudge ------------------------------
-(* Dispatch of one recorded event to the L1 clauses (verdict) and the L2 model (conformance). *)
-EXTENDS ColorStr
+(***************************************************************************)
+(* Dispatch of one recorded event of the FmtStr algebra to the L1 clauses *)
+(* (verdict) and the L2 model (conformance).                              *)
+(* A result record is [k |-> "ok" | "exc", v |-> runs, t |-> exception    *)
+(* class, n |-> len(result), s |-> result.s]                              *)
+(***************************************************************************)
+EXTENDS ColorStr, FmtImpl
 
 V(clause, exact) == <<IF clause = "ok" THEN "ok" ELSE "fail", IF clause = "ok" THEN "" ELSE clause,
                       IF exact THEN "exact" ELSE "drift">>
 
-(* C01: str(f) asked twice (memo) and the concatenation of the runs' own color_str *)
+Consistent(res) == Text(res.v) = res.s /\ res.n = Len(res.s)
+
+\* a value-returning operation: must not raise, must show `cells`, len()/.s must agree with the runs
+JudgeValue(pfx, res, cells, impl) ==
+  IF res.k # "ok" THEN V(pfx \o ".Raised", FALSE)
+  ELSE IF Cells(res.v) # cells THEN V(pfx \o ".Cells", FALSE)
+  ELSE IF ~Consistent(res) THEN V(pfx \o ".LenText", FALSE)
+  ELSE V("ok", res.v = impl)
+
+(* ---------------------------------------------------------------- C01 *)
 JudgeStr(e) ==
   LET c == C01Verdict(e.f, e.toks)
       c2 == IF c # "ok" THEN c ELSE C01Verdict(e.f, e.toks2)
   IN V(c2, e.toks = ImplStr(e.f) /\ e.toks2 = e.toks)
 
+(* ---------------------------------------------------------------- C06 *)
+JudgeSlice(e) ==
+  JudgeValue("Slice", e.res, AbsSlice(Cells(e.f), e.a, e.an, e.b, e.bn), ImplSlice(e.f, e.a, e.an, e.b, e.bn))
+
+JudgeIndex(e) ==
+  IF AbsIndexRaises(Cells(e.f), e.i)
+  THEN IF e.res.k = "exc" THEN V("ok", e.res.t = "IndexError") ELSE V("Index.MustRaise", FALSE)
+  ELSE JudgeValue("Index", e.res, AbsIndex(Cells(e.f), e.i), ImplIndex(e.f, e.i))
+
+JudgeAdd(e) == JudgeValue("Add", e.res, AbsAdd(Cells(e.x.v), Cells(e.y.v)), ImplAdd(e.x.v, e.y.v))
+JudgeMul(e) == JudgeValue("Mul", e.res, AbsMul(Cells(e.f), e.n), ImplMul(e.f, e.n))
+JudgeJoin(e) ==
+  LET items == [k \in 1..Len(e.items) |-> e.items[k].v]
+  IN JudgeValue("Join", e.res, AbsJoin(Cells(e.sep), [k \in 1..Len(items) |-> Cells(items[k])]),
+                ImplJoin(e.sep, items))
+
+(* ---------------------------------------------------------------- C09 *)
+JudgeSplice(e) ==
+  LET j == JudgeValue("Splice", e.res, AbsSplice(Cells(e.f), Cells(e.new.v), e.s, e.e, e.en),
+                      ImplSplice(e.f, e.new.v, e.s, e.e, e.en))
+  IN IF j[1] = "ok" /\ e.f2 # e.f THEN V("Splice.OperandChanged", FALSE) ELSE j
+JudgeAppend(e) ==
+  LET j == JudgeValue("Append", e.res, AbsAppend(Cells(e.f), Cells(e.new.v)), ImplAppend(e.f, e.new.v))
+  IN IF j[1] = "ok" /\ e.f2 # e.f THEN V("Append.OperandChanged", FALSE) ELSE j
+
 Judge(e) ==
   CASE e.op = "str" -> JudgeStr(e)
+    [] e.op = "slice" -> JudgeSlice(e)
+    [] e.op = "index" -> JudgeIndex(e)
+    [] e.op = "add" -> JudgeAdd(e)
+    [] e.op = "mul" -> JudgeMul(e)
+    [] e.op = "join" -> JudgeJoin(e)
+    [] e.op = "splice" -> JudgeSplice(e)
+    [] e.op = "append" -> JudgeAppend(e)
     [] OTHER -> <<"fail", "UnknownOp", "drift">>
 =============================================================================
